@@ -248,6 +248,18 @@ def main():
     import glob
     for f in glob.glob(os.path.join(VERIF, "replays", args.prop + "-*.json")):
         os.remove(f)
+    # change-directed effort: compare the anchored sources with the fingerprints recorded when the
+    # checks were last validated against /repo (tools/model_pins.json, written by tools/mkpins.py)
+    try:
+        pins = json.load(open(os.path.join(HERE, "model_pins.json"))).get(args.prop, {})
+        now = vlib.source_fingerprints(args.prop)
+        changed = sorted(f for f in set(pins) | set(now) if pins.get(f) != now.get(f))
+        if pins and changed and args.tier == "quick":
+            ctx.escalated = True
+            ctx.extra["escalated_because_sources_changed"] = changed
+            ctx.note("anchored sources differ from the pinned fingerprints (%s): generator sizes tripled for this run" % ", ".join(changed))
+    except Exception:
+        pass
     lock = vlib.Lock()
     if not args.no_build:
         ok, cone = build_cone(ctx, lock)
